@@ -9,6 +9,8 @@ import (
 	"crypto/cipher"
 	"crypto/ecdh"
 	"crypto/ed25519"
+	"crypto/sha1"
+	"crypto/sha256"
 	"hash"
 	"io"
 	"sync"
@@ -48,6 +50,33 @@ func BytesEq(a, b []byte) bool {
 	return true
 }
 func StrEq(a, b string) bool { return a == b }
+
+// BytesLess is lexicographic a < b; SelectBytes is c ? a : b (both non-branching under the engine).
+func BytesLess(a, b []byte) bool { return string(a) < string(b) }
+func SelectBytes(c bool, a, b []byte) []byte {
+	if c {
+		return a
+	}
+	return b
+}
+func Ite8(c bool, a, b byte) byte {
+	if c {
+		return a
+	}
+	return b
+}
+func IteInt(c bool, a, b int) int {
+	if c {
+		return a
+	}
+	return b
+}
+
+// Reference digests for harness oracles: the same primitive the code under test calls
+// (a UF under the engine, the real function natively).
+func RefSHA256(b []byte) []byte { h := sha256.Sum256(b); return h[:] }
+func RefSHA1(b []byte) []byte   { h := sha1.Sum(b); return h[:] }
+func RefBLAKE3(b []byte) []byte { h := blake3.Sum256(b); return h[:] }
 
 // IsConcrete reports whether all bytes are concrete (native: always true).
 func IsConcrete(b []byte) bool { return true }
@@ -399,9 +428,8 @@ func Model_sha512_Sum512(data []byte) (out [64]byte) {
 
 // ---- AES block cipher: a permutation per key (only one 16-byte block per call, as the real Block)
 
-type aesRec struct{ key, in, out []byte }
-
-var aesEncs, aesDecs []aesRec
+// AES is idealised as a family of permutations, injective in (key, block) jointly: E_k(x) = E_k'(x')
+// implies k = k' and x = x' (no cross-key collisions), and D_k(y) = x exactly when E_k(x) = y.
 
 type ModelAES struct{ key []byte }
 
@@ -414,19 +442,7 @@ func (c *ModelAES) Encrypt(dst, src []byte) {
 		panic("crypto/aes: output not full block")
 	}
 	in := append([]byte{}, src[:16]...)
-	out := UF("aes.enc", 16, c.key, in)
-	for _, d := range aesDecs {
-		if len(d.key) == len(c.key) {
-			Axiom(Implies(And(BytesEq(d.key, c.key), BytesEq(d.out, in)), BytesEq(out, d.in)))
-		}
-	}
-	for _, e := range aesEncs {
-		if len(e.key) == len(c.key) {
-			Axiom(Implies(And(BytesEq(e.key, c.key), BytesEq(e.out, out)), BytesEq(e.in, in)))
-		}
-	}
-	aesEncs = append(aesEncs, aesRec{key: c.key, in: in, out: out})
-	copy(dst, out)
+	copy(dst, UF("inj/aes.enc", 16, c.key, in))
 }
 func (c *ModelAES) Decrypt(dst, src []byte) {
 	if len(src) < 16 {
@@ -437,17 +453,7 @@ func (c *ModelAES) Decrypt(dst, src []byte) {
 	}
 	in := append([]byte{}, src[:16]...)
 	out := UF("aes.dec", 16, c.key, in)
-	for _, e := range aesEncs {
-		if len(e.key) == len(c.key) {
-			Axiom(Implies(And(BytesEq(e.key, c.key), BytesEq(e.out, in)), BytesEq(out, e.in)))
-		}
-	}
-	for _, d := range aesDecs {
-		if len(d.key) == len(c.key) {
-			Axiom(Implies(And(BytesEq(d.key, c.key), BytesEq(d.out, out)), BytesEq(d.in, in)))
-		}
-	}
-	aesDecs = append(aesDecs, aesRec{key: c.key, in: in, out: out})
+	Axiom(BytesEq(UF("inj/aes.enc", 16, c.key, out), in))
 	copy(dst, out)
 }
 
@@ -511,21 +517,16 @@ func Model_chacha20poly1305_New(key []byte) (cipher.AEAD, error) {
 
 // ---- X25519 / Ed25519 <-> Curve25519 (ideal Diffie-Hellman)
 
-type dhRec struct{ k, p, out []byte }
-
-var dhApps []dhRec
-
 func x25519Base(k []byte) []byte { return UF("inj/x25519.base", 32, k) }
 
+// x25519DH is an ideal Diffie-Hellman: dh(k, P) is an injective function of the unordered pair
+// {base(k), P}; hence dh(k1, base(k2)) == dh(k2, base(k1)) and unrelated pairs never collide.
 func x25519DH(k, p []byte) []byte {
-	out := UF("x25519.dh", 32, k, p)
 	bk := x25519Base(k)
-	for _, d := range dhApps {
-		// dh(k1, base(k2)) == dh(k2, base(k1))
-		Axiom(Implies(And(BytesEq(p, x25519Base(d.k)), BytesEq(d.p, bk)), BytesEq(out, d.out)))
-	}
-	dhApps = append(dhApps, dhRec{k: k, p: p, out: out})
-	return out
+	less := BytesLess(bk, p)
+	lo := SelectBytes(less, bk, p)
+	hi := SelectBytes(less, p, bk)
+	return UF("inj/x25519.dhsym", 32, lo, hi)
 }
 
 //gosmt:model (*crypto/ecdh.x25519Curve).NewPrivateKey
@@ -553,13 +554,13 @@ func Model_ecdh_PrivateKey_ECDH(k *ecdh.PrivateKey, remote *ecdh.PublicKey) ([]b
 	kb := SideGet(k).([]byte)
 	pb := SideGet(remote).([]byte)
 	out := x25519DH(kb, pb)
+	// the real function fails only when the result is all-zero, i.e. for a low-order remote point;
+	// idealisation: the ideal DH never outputs zero (callers exclude low-order points first)
 	zero := true
 	for _, b := range out {
 		zero = And(zero, b == 0)
 	}
-	if zero {
-		return nil, errModel("crypto/ecdh: bad X25519 remote ECDH input: low order point")
-	}
+	Axiom(Not(zero))
 	return append([]byte{}, out...), nil
 }
 
@@ -604,11 +605,37 @@ func modelEdPub(seed []byte) []byte {
 		}
 	}
 	s := append([]byte{}, seed...)
+	// an honestly derived public key is a valid point of large order
+	Axiom(UFBool("edwards25519.valid", maskSign(pub)))
+	Axiom(Not(edSmallOrder(pub)))
 	for _, m := range edMonts {
 		linkEdMont(s, pub, m)
 	}
+	for _, r := range edPubs {
+		// two honest keys never share their y coordinate (differ only in the sign bit)
+		Axiom(Implies(BytesEq(maskSign(r.pub), maskSign(pub)), BytesEq(r.seed, s)))
+	}
 	edPubs = append(edPubs, edPubRec{seed: s, pub: pub})
 	return pub
+}
+
+var edSmallOrderSet = [7][32]byte{
+	{0x00},
+	{0x01},
+	{0x26, 0xe8, 0x95, 0x8f, 0xc2, 0xb2, 0x27, 0xb0, 0x45, 0xc3, 0xf4, 0x89, 0xf2, 0xef, 0x98, 0xf0, 0xd5, 0xdf, 0xac, 0x05, 0xd3, 0xc6, 0x33, 0x39, 0xb1, 0x38, 0x02, 0x88, 0x6d, 0x53, 0xfc, 0x05},
+	{0xc7, 0x17, 0x6a, 0x70, 0x3d, 0x4d, 0xd8, 0x4f, 0xba, 0x3c, 0x0b, 0x76, 0x0d, 0x10, 0x67, 0x0f, 0x2a, 0x20, 0x53, 0xfa, 0x2c, 0x39, 0xcc, 0xc6, 0x4e, 0xc7, 0xfd, 0x77, 0x92, 0xac, 0x03, 0x7a},
+	{0xec, 0xff, 0xff, 0xff, 0xff, 0xff, 0xff, 0xff, 0xff, 0xff, 0xff, 0xff, 0xff, 0xff, 0xff, 0xff, 0xff, 0xff, 0xff, 0xff, 0xff, 0xff, 0xff, 0xff, 0xff, 0xff, 0xff, 0xff, 0xff, 0xff, 0xff, 0x7f},
+	{0xed, 0xff, 0xff, 0xff, 0xff, 0xff, 0xff, 0xff, 0xff, 0xff, 0xff, 0xff, 0xff, 0xff, 0xff, 0xff, 0xff, 0xff, 0xff, 0xff, 0xff, 0xff, 0xff, 0xff, 0xff, 0xff, 0xff, 0xff, 0xff, 0xff, 0xff, 0x7f},
+	{0xee, 0xff, 0xff, 0xff, 0xff, 0xff, 0xff, 0xff, 0xff, 0xff, 0xff, 0xff, 0xff, 0xff, 0xff, 0xff, 0xff, 0xff, 0xff, 0xff, 0xff, 0xff, 0xff, 0xff, 0xff, 0xff, 0xff, 0xff, 0xff, 0xff, 0xff, 0x7f},
+}
+
+func edSmallOrder(ed []byte) bool {
+	m := maskSign(ed)
+	in := false
+	for i := range edSmallOrderSet {
+		in = Or(in, BytesEq(m, edSmallOrderSet[i][:]))
+	}
+	return in
 }
 
 func maskSign(ed []byte) []byte {
